@@ -2,6 +2,7 @@ package sim
 
 import (
 	"bytes"
+	"crypto/sha256"
 	"fmt"
 	"strings"
 
@@ -32,6 +33,7 @@ func c06Config(rc *RunCtx) {
 	rc.Cfg["version"] = []int{2, 3, 3, 23}[r.Intn(4)]
 	rc.Cfg["stage"] = r.Intn(len(c06Stages))
 	rc.Cfg["victim"] = r.Intn(2)
+	rc.Cfg["starter"] = r.Intn(2) // who sends the query: the victim is then responder (0) or initiator (1) of the exchange
 	pol := polFor(rc.Cfg["version"])
 	rc.Parties = []PartyCfg{
 		{KeyIdx: 0, Pol: pol, Peer: 1, ErrHandler: r.Bool()},
@@ -72,7 +74,12 @@ func obsLine(w *World, r *CallResult) string {
 		// what a session reports about itself; outside a session the getters have no meaning
 		ssid, fp = fmt.Sprintf("%x", r.Post.SSID), r.Post.FP
 	}
-	return fmt.Sprintf("%s.%s plain=%q err=%q ev=%v enc=%v ssid=%s fp=%.8s out=%v panic=%v", w.P[r.Party].Name, r.Kind, r.Plain, errc, r.EventNames(), r.Post.Enc, ssid, fp, outs, r.Panic != "")
+	h := sha256.New()
+	for _, o := range r.Out {
+		_, _ = h.Write(o)
+		_, _ = h.Write([]byte{0})
+	}
+	return fmt.Sprintf("%s.%s plain=%q err=%q ev=%v enc=%v ssid=%s fp=%.8s out=%v panic=%v bytes=%x", w.P[r.Party].Name, r.Kind, r.Plain, errc, r.EventNames(), r.Post.Enc, ssid, fp, outs, r.Panic != "", h.Sum(nil)[:6])
 }
 
 // c06Prefix drives the pair to the configured state (deterministically).
@@ -81,6 +88,9 @@ func c06Prefix(rc *RunCtx, cw *c06World) {
 	stage := rc.Cfg["stage"]
 	v := rc.Cfg["victim"]
 	starter := v
+	if rc.Cfg["starter"] == 1 {
+		starter = 1 - v
+	}
 	switch c06Stages[stage] {
 	case "plaintext":
 		return
@@ -236,10 +246,11 @@ func c06CraftX(rc *RunCtx, cw *c06World, s Step) ([]byte, string) {
 		}
 	case "fragment":
 		st, rt := tag()
-		if w.P[v].Conv.GetTheirInstanceTag() == 0 && s.C%9 == 2 {
-			// a well-formed fragment from another valid instance legitimately binds an
-			// unbound conversation to that instance (C15); not a rejection case
-			s.C++
+		if w.P[v].Conv.GetTheirInstanceTag() == 0 {
+			// any input with valid tags addressed to an unbound conversation legitimately tells it
+			// the peer's instance (C15), whatever else is wrong with it: not a rejection case.
+			// Unbound victims only get the variants without valid tags.
+			s.C = []int{4, 5, 6, 7, 8}[s.C%5]
 		}
 		frs := [][]byte{
 			[]byte(fmt.Sprintf("?OTR|%08x|%08x,00000,00003,abc,", st, rt)),
@@ -289,7 +300,38 @@ func c06Run(rc *RunCtx) *Violation {
 	gen := func() (Step, bool) {
 		r := rc.Rng
 		if len(rc.Steps) == 0 {
-			return Step{K: "x", A: rc.Cfg["victim"], B: r.Intn(len(c06XClasses)), C: r.Intn(1 << 10), D: r.Intn(1 << 16), X: true}, true
+			// choose among the classes that exist in this state (so that the fallback "garbage" does not dominate)
+			v := rc.Cfg["victim"] % 2
+			hasData, hasAKE, hasDelivered, v3 := false, false, false, false
+			for _, x := range w.Arch {
+				if x.To != v || !x.Genuine || !refotr.IsArmored(x.Bytes) {
+					continue
+				}
+				if dataTyped(x.Bytes) {
+					hasData = true
+					hasDelivered = hasDelivered || x.Delivered > 0
+				} else {
+					hasAKE = true
+				}
+				if raw, err := refotr.Dearmor(x.Bytes); err == nil && len(raw) > 1 && raw[1] == 3 {
+					v3 = true
+				}
+			}
+			// data-mutated data-replay ake-replay ake-mutated version tags garbage fragment data-forged-future
+			wt := []int{0, 0, 0, 0, 0, 0, 2, 3, 0}
+			if hasData {
+				wt[0], wt[8], wt[4] = 8, 5, 2
+			}
+			if hasDelivered {
+				wt[1] = 3
+			}
+			if hasAKE {
+				wt[2], wt[3], wt[4] = 3, 10, 2
+			}
+			if v3 && (hasData || hasAKE) {
+				wt[5] = 4
+			}
+			return Step{K: "x", A: v, B: r.Pick(wt), C: r.Intn(1 << 10), D: r.Intn(1 << 16), X: true}, true
 		}
 		if len(rc.Steps) > 14+r.Intn(20) {
 			return Step{}, false
@@ -360,9 +402,10 @@ func c06Run(rc *RunCtx) *Violation {
 			// save the victim's randomness position
 			savedP, savedReads, savedDraws := *p.Rand.p, p.Rand.reads, len(p.Rand.Draws)
 			c1.o.Off[0], c1.o.Off[1] = true, true
+			encBefore := p.Conv.IsEncrypted()
 			w.Logf("X class=%s to %s: %s", cls, p.Name, short(msg))
 			r := p.Receive(msg) // outputs (an optional error reply) are not delivered
-			rejected = r.Plain == nil && r.Panic == ""
+			rejected = r.Plain == nil && r.Panic == "" && len(actedEvents(r)) == 0 && r.Post.Enc == p.Conv.IsEncrypted() && encBefore == r.Post.Enc
 			for _, o := range r.Out {
 				if !bytes.HasPrefix(o, []byte("?OTR Error")) {
 					rejected = false
